@@ -144,6 +144,12 @@ def native_run(text, entry, inputs, timeout=30, san=True, env_extra=None):
 def native_confirm(task, viol):
     """replay one counterexample against the real build -> (reproduced?, detail)"""
     kind = viol['kind']
+    if kind == 'growth':
+        # re-measure natively with the counting allocator: the judge callback decides
+        cb = task.opts.get('native_growth')
+        if cb is None:
+            return False, 'no native growth measurement'
+        return cb()
     if kind == 'uninit_output':
         a = native_run(task.text, task.entry, viol['inputs'], env_extra={'VP_POISON': '0x00'})
         b = native_run(task.text, task.entry, viol['inputs'], env_extra={'VP_POISON': '0xA5'})
@@ -342,6 +348,21 @@ def run_property(pid, tasks, tier, seed, meta):
                              obligations_normalised=r['obligations_normalised'], violations=len(seen),
                              queries=r['queries'], solver_s=r['solver_s'], wall_s=r['wall_s'],
                              witness_reached=all(r['reached'].get(tag) for tag in t.reach)))
+    # ---- cross-harness judge (e.g. growth of a measured quantity between two harness sizes)
+    post = meta.get('post')
+    if post is not None:
+        byid = {r['tid']: r for r in results if 'tid' in r}
+        for tid, v in post(byid):
+            t = by_tid[tid]
+            k = norm_key(t.tid, v)
+            hit = None
+            for pat, desc in known.items():
+                if key_matches(pat, k):
+                    hit = (pat, desc)
+            if hit:
+                known_hit.setdefault(hit[0], hit[1])
+            else:
+                new_viol.append((t, v, k))
     # ---- replay new violations natively (first few per task)
     confirmed = []
     unconfirmed = []
